@@ -75,28 +75,138 @@ def must_str(clause, fn):
     return s
 
 
-def describable(matcher, matchee, mismatch):
-    """All C07 clauses about one mismatch; raises Fail."""
+_HOLDER = []
+
+
+def holder_case():
+    """A real TestCase instance to call assertThat / expectThat on (outside a run, as user code in a test would)."""
+    if not _HOLDER:
+        from testtools import TestCase
+
+        class Holder(TestCase):
+            def test_nothing(self):
+                pass
+
+        _HOLDER.append(Holder)
+    return _HOLDER[0]("test_nothing")
+
+
+def children_of(mm):
+    out = []
+    for x in list(getattr(mm, "__dict__", {}).values()):
+        if hasattr(x, "describe") and hasattr(x, "get_details"):
+            out.append(x)
+        elif isinstance(x, (list, tuple)):
+            out += [y for y in x if hasattr(y, "describe") and hasattr(y, "get_details")]
+        elif isinstance(x, dict):
+            out += [y for y in x.values() if hasattr(y, "describe") and hasattr(y, "get_details")]
+    return out
+
+
+def unstable_class(mm, depth=0):
+    """Class of the innermost mismatch object (of a fresh mismatch tree) whose describe() does not repeat itself."""
+    if depth < 30:
+        for c in children_of(mm):
+            got = unstable_class(c, depth + 1)
+            if got:
+                return got
+    try:
+        if mm.describe() != mm.describe():
+            return type(mm).__name__
+    except BaseException:  # noqa
+        return type(mm).__name__
+    return None
+
+
+def fresh(matcher, matchee, clause="annotated-match"):
+    try:
+        mm = matcher.match(matchee)
+    except BaseException as ex:  # noqa
+        raise Fail(clause, sig_of(ex), repr(ex)[:200])
+    if mm is None:
+        raise Fail(clause, "annotate-changes-verdict", "the matcher matched on a second call")
+    return mm
+
+
+def describable(matcher, matchee, mismatch, rot=0, with_expect=False):
+    """All C07 clauses about one mismatch; raises Fail at the first clause that fails.
+    Calls are made in the order the library makes them: get_details() first, then describe() / str(error); every
+    text is compared with the description of a FRESH mismatch of the same pair that was described first."""
+    from testtools.assertions import assert_that
     from testtools.matchers import Annotate, MismatchError
 
-    must_str("describe", mismatch.describe)
+    d0 = must_str("describe", mismatch.describe)
+    if not d0.strip():
+        raise Fail("describe", "describe-empty:%s" % type(mismatch).__name__, repr(d0))
+    b = fresh(matcher, matchee)
     try:
-        d = mismatch.get_details()
+        d = b.get_details()
     except BaseException as ex:  # noqa
         raise Fail("get_details", sig_of(ex), repr(ex)[:200])
     if not isinstance(d, dict):
-        raise Fail("get_details", "get_details:not-dict:%s" % type(mismatch).__name__, repr(d)[:200])
+        raise Fail("get_details", "get_details:not-dict:%s" % type(b).__name__, repr(d)[:200])
+    d1 = must_str("describe", b.describe)
+    if d1 != d0:
+        raise Fail(
+            "describe-after-get_details",
+            "describe-after-get_details:%s" % (unstable_class(fresh(matcher, matchee)) or type(b).__name__),
+            "%r, but a fresh mismatch of the same pair describes itself as %r" % (d1[:120], d0[:120]),
+        )
     for msg in MESSAGES:
         m2 = Annotate.if_message(msg, matcher)
-        try:
-            mm2 = m2.match(matchee)
-        except BaseException as ex:  # noqa
-            raise Fail("annotated-match", sig_of(ex), repr(ex)[:200])
-        if mm2 is None:
-            raise Fail("annotated-match", "annotate-changes-verdict", "Annotate.if_message(%r, m) matched" % msg)
+        want = must_str("describe", fresh(m2, matchee).describe)
         for verbose in (False, True):
+            mm2 = fresh(m2, matchee)
+            mm2.get_details()  # as TestCase._matchHelper does before the error is built
             err = MismatchError(matchee, m2, mm2, verbose)
-            must_str("mismatcherror-str", lambda: str(err))
+            text = must_str("mismatcherror-str", lambda: str(err))
+            if want not in text:
+                raise Fail("mismatcherror-text", "mismatcherror-text:lacks-description:%s" % type(mm2).__name__, "%r lacks %r" % (text[:160], want[:120]))
+    # through the real entry points (one message / verbosity combination per pair, rotating)
+    msg = MESSAGES[rot % 2]
+    verbose = bool((rot // 2) % 2)
+    want = must_str("describe", fresh(Annotate.if_message(msg, matcher), matchee).describe)
+    case = holder_case()
+    try:
+        case.assertThat(matchee, matcher, msg, verbose)
+        got = None
+    except MismatchError as ex:
+        got = ex
+    except BaseException as ex:  # noqa
+        raise Fail("assertThat-raises", sig_of(ex), repr(ex)[:200])
+    if got is None:
+        raise Fail("assertThat-raises", "assertThat:no-MismatchError-on-mismatch", "no exception")
+    text = must_str("mismatcherror-str", lambda: str(got))
+    if want not in text:
+        raise Fail("assertThat-report", "assertThat:error-text-lacks-description", "%r lacks %r" % (text[:160], want[:120]))
+    try:
+        assert_that(matchee, matcher, msg, verbose)
+        got = None
+    except MismatchError as ex:
+        got = ex
+    text = must_str("mismatcherror-str", lambda: str(got)) if got is not None else ""
+    if want not in text:
+        raise Fail("assert_that-report", "assert_that:error-text-lacks-description", "%r lacks %r" % (text[:160], want[:120]))
+    if with_expect:
+        case = holder_case()
+        try:
+            case.expectThat(matchee, matcher, msg, verbose)
+        except BaseException as ex:  # noqa
+            raise Fail("expectThat-raises", "expectThat:raised:%s" % type(ex).__name__, repr(ex)[:200])
+        det = case.getDetails().get("Failed expectation")
+        text = must_str("expectThat-report", det.as_text) if det is not None else ""
+        if want not in text or not getattr(case, "force_failure", False):
+            raise Fail("expectThat-report", "expectThat:failed-expectation-lacks-description", "%r lacks %r" % (text[-200:], want[:120]))
+    # last (the clauses above use one describe() per mismatch object): describing a mismatch again gives the same text
+    c = fresh(matcher, matchee)
+    first = must_str("describe", c.describe)
+    second = must_str("describe", c.describe)
+    if first != second or first != d0:
+        raise Fail(
+            "describe-unstable",
+            "describe-unstable:%s" % (unstable_class(fresh(matcher, matchee)) or type(c).__name__),
+            "first %r, then %r" % (first[:120], second[:120]),
+        )
 
 
 def check_pair_describable(e, v, cx, pool):
@@ -125,10 +235,14 @@ def check_pair_describable(e, v, cx, pool):
             if r == "T" and got is not None:
                 raise Fail("assert_that-raises", "assert_that:raises-on-match", repr(got)[:200])
         if r == "F":
-            describable(m, val, mm)
+            _ROT[0] += 1
+            describable(m, val, mm, _ROT[0], with_expect=_ROT[0] % 4 == 0)
         return r, None
     except Fail as f:
         return None, f
+
+
+_ROT = [0]
 
 
 # ---------------------------------------------------------------------------------------------------------
@@ -192,7 +306,9 @@ def make_detailed(inner, names, tag):
             return self.original.describe()
 
         def get_details(self):
-            return dict(contents)
+            d = dict(self.original.get_details())  # what a decorating mismatch does: ask the original first
+            d.update(contents)
+            return d
 
     class Detailed:
         def __str__(self):
@@ -266,6 +382,14 @@ def part_tests(rep, sample, pool, rnd):
         if r0 != expected:
             rep.extra["tests_where_match_disagrees_with_spec_see_C06"] = rep.extra.get("tests_where_match_disagrees_with_spec_see_C06", 0) + 1
         mism = r0 == "F"
+        want = None
+        if mism:
+            from testtools.matchers import Annotate
+
+            try:  # the description of a fresh mismatch of this pair, described first: what the reports must carry
+                want = Annotate.if_message(msg, inner0).match(val).describe()
+            except BaseException:  # noqa  (part A reports describe() problems)
+                want = None
         m, dcont = make_detailed(inner0, COLLIDING, "a")
         user = [text_content("user:%s" % n) for n in COLLIDING[:2]]
         log = {}
@@ -291,6 +415,13 @@ def part_tests(rep, sample, pool, rnd):
                 bad("assertThat-outcome", "assertThat:mismatch-not-a-failure:%s" % name, e, v, cx, "addFailure", name)
             elif not holds_all(det, user + dcont):
                 bad("assertThat-details", "assertThat:details-lost", e, v, cx, "user and mismatch details all present", sorted(det))
+            elif want is not None:
+                try:
+                    text = str(raised)
+                except BaseException as ex:  # noqa
+                    text = "<str raised %r>" % ex
+                if want not in text:
+                    bad("assertThat-report", "assertThat:error-text-lacks-description", e, v, cx, want[:160], text[:200])
         else:
             if raised is not None or name != "addSuccess":
                 bad("assertThat-raises", "assertThat:raises-on-match:%s" % type(raised).__name__, e, v, cx, "no exception, addSuccess", "%r %s" % (raised, name))
@@ -342,6 +473,17 @@ def part_tests(rep, sample, pool, rnd):
             bad("expectThat-details", "expectThat:details-lost", e, v, cx, "user details and the details of all three mismatches present", sorted(det))
         elif mism and sum(1 for k in det if k.startswith("Failed expectation")) < 3 + 3:
             bad("expectThat-details", "expectThat:failed-expectation-clobbered", e, v, cx, ">= 6 'Failed expectation*' details", sorted(det))
+        elif mism and want is not None:
+            mine = [c for _, cs in ms for c in cs]
+            texts = []
+            for k, c in det.items():
+                if k.startswith("Failed expectation") and not any(c is x for x in mine):
+                    try:
+                        texts.append(c.as_text())
+                    except BaseException as ex:  # noqa
+                        texts.append("<as_text raised %r>" % ex)
+            if sum(1 for t in texts if want in t) < 3:
+                bad("expectThat-report", "expectThat:failed-expectation-lacks-description", e, v, cx, want[:160], [t[-160:] for t in texts])
     for (clause, sig), (e, v, cx, expected, observed) in sorted(fails.items()):
         rep.violation(
             clause,
